@@ -2,8 +2,10 @@
    regenerated tables of layer (B). *)
 From Coq Require Import ZArith.
 From mathcomp Require Import all_ssreflect all_algebra.
-Require Import NDT.Gen.Spec NDT.Arith.OpsField NDT.Theory.RuleTables NDT.Theory.RuleTablesNat NDT.Theory.RuleExact NDT.Theory.RuleComposed.
-Import GRing.Theory.
+From mathcomp Require Import all_field.
+Require Import NDT.Gen.Spec NDT.Arith.OpsField NDT.Theory.RuleTables NDT.Theory.RuleTablesNat NDT.Theory.RuleExact NDT.Theory.RuleComposed
+               NDT.Theory.StencilSignatures NDT.Theory.StencilLinear NDT.Theory.RuleStencil.
+Import GRing.Theory Num.Theory.
 Local Open Scope ring_scope.
 
 (* sigma: Taylor signature of the stencil; (off, st): progression of the moment system; T terms;
@@ -36,3 +38,30 @@ Theorem C06_rule_exact_from_tables (F : fieldType) (char0 : [char F] =i pred0) (
   fl * (\sum_(0 <= i < T) w i * (\sum_(0 <= k < off + st * T) sig k * g k * (h * rho ^+ i) ^+ k)) / h ^+ (Z.to_nat n)
   = (Z.to_nat n)`!%:R * g (Z.to_nat n).
 Proof. move=> Hn Ho Hm h0 off st T r c0 fl sig wM. exact: (rule_exact_from_tables char0 Hn Ho Hm g h0 wM). Qed.
+
+(* (A) + (B) + (C) in one statement, with the stencil written as the source writes it.  f is any polynomial
+   f(x + d) = sum_{k < K} g_k d^k, K = offset + step*terms = n + method_order (C06_remainder_matches_richardson), given on
+   real displacements (polyr), on complex displacements (polyc) and at x itself; stencil_value S hh is the body of
+   DifferenceFunctions._central/_central_even/_forward/_backward/_complex/_complex_odd/_complex_odd_higher/_complex_even/
+   _complex_even_higher applied to that f at step hh (Theory/StencilLinear.v), S the name the dispatch selects.  A rule solving
+   the moment system that _fd_matrix builds from the regenerated tables then returns n! g_n = f^(n)(x), for every method in
+   {central, forward, backward, complex}, every n >= 1, every order >= 1, every step ratio for which such a rule exists,
+   over any field of characteristic 0 containing s = 1/sqrt 2 (the components of _SQRT_J) *)
+Theorem C06_rule_exact_on_stencil (F : fieldType) (char0 : [char F] =i pred0) (s : F) (m : method) (n order : Z) (rho h : F) (g w : nat -> F) :
+  s * s + s * s = 1 ->
+  Z.le (Zpos xH) n -> Z.le (Zpos xH) order -> m = Central \/ m = Forward \/ m = Backward \/ m = Complex -> h != 0 ->
+  let off := offN m n order in let st := stN m n order in let T := termsN m n order in let r := rowN m n order in
+  let c0 : F := field_ofZ F (c0Z m n order) in
+  let fl : F := if flip_fd_rule m n order then -1 else 1 in
+  (forall j, (j < T)%N -> \sum_(0 <= i < T) w i * (c0 / (off + st * j)`!%:R * rho ^+ (i * (off + st * j))) = (j == r)%:R) ->
+  fl * (\sum_(0 <= i < T) w i * stencil_value s m n order g (stencil_of m n order) (h * rho ^+ i)) / h ^+ (Z.to_nat n)
+  = (Z.to_nat n)`!%:R * g (Z.to_nat n).
+Proof. move=> s2 Hn Ho Hm h0 off st T r c0 fl wM. exact: (rule_exact_on_stencil char0 s2 Hn Ho Hm g h0 wM). Qed.
+
+(* the hypotheses on the field are satisfiable: the algebraic numbers have characteristic 0 and contain 1/sqrt 2 *)
+Example C06_field_exists : exists (F : fieldType) (s : F), [char F] =i pred0 /\ s * s + s * s = 1.
+Proof.
+exists [fieldType of algC], (sqrtC (2%:R^-1)); split; first exact: Cchar.
+rewrite -expr2 sqrtCK -mulr2n -(mulr_natl (2%:R^-1 : algC) 2) mulfV //.
+by rewrite pnatr_eq0.
+Qed.
